@@ -262,7 +262,9 @@ func (p *Proxy) handleLoop(conn net.Conn) {
 		deadline := time.Now().Add(p.timeout)
 		conn.SetDeadline(deadline)
 
-		if err := p.handle(ctx, conn, brw); isCloseable(err) {
+		// The session's connection is the TLS connection once a CONNECT tunnel
+		// has been upgraded (MITM): requests are read from that connection.
+		if err := p.handle(ctx, s.currentConn(), brw); isCloseable(err) {
 			log.Debugf("martian: closing connection: %v", conn.RemoteAddr())
 			return
 		}
@@ -376,6 +378,9 @@ func (p *Proxy) handleConnectRequest(ctx *Context, req *http.Request, session *S
 			}
 			brw.Writer.Reset(nconn)
 			brw.Reader.Reset(nconn)
+			// From here on the session's connection is the decrypted one: for
+			// the remaining requests of the tunnel and for a hijacker.
+			session.setConn(nconn, brw)
 			return p.handle(ctx, nconn, brw)
 		}
 
